@@ -101,7 +101,9 @@ def name_table_new(src, impl_re, fn_re, prefix):
     rows, default_seen = [], False
     for p, e in split_arms(m):
         if re.fullmatch(r"[a-z_]+", p):
-            if not re.fullmatch(r"(%s)?Custom\(\s*%s\s*\)" % (prefix, re.escape(p)), e):
+            # `x => Custom(x)` or `_ => Custom(value)` (value being the matched byte)
+            want = "value" if p == "_" else p
+            if not re.fullmatch(r"(%s)?Custom\(\s*%s\s*\)" % (prefix, re.escape(want)), e):
                 raise Skip("default arm is not Custom(x): %s => %s" % (p, e))
             default_seen = True
             continue
